@@ -99,3 +99,84 @@ func namedOf(t types.Type) *types.Named {
 	nt, _ := t.(*types.Named)
 	return nt
 }
+
+// C17, obligation kind "recover-at-boundary": the two OpenAPI accessors of kit.JApi run the whole conversion under a
+// deferred call that recovers a panic and stores an error through a pointer to the accessor's error result. Decided on the
+// SSA: the defer is the first call-like instruction of the entry block; its callee (in the module) calls the builtin
+// recover and stores to a *error parameter or captured variable; the accessor passes the address of its named error result.
+func (e *Engine) recoverBoundaryChecks(id string) []fdResult {
+	if id != "C17" {
+		return nil
+	}
+	var out []fdResult
+	for _, name := range []string{"ToOpenAPIJson", "ToOpenAPIJsonIndent"} {
+		fn := e.lookupFunc(modPath+"/kit", "(*JApi)."+name)
+		r := fdResult{Name: "kit.JApi." + name + "/recover-at-boundary#1", Props: []string{"C17"},
+			Goal: "a panic of the OpenAPI conversion is recovered and returned as the error of " + name}
+		if fn == nil || fn.Blocks == nil {
+			r.Detail = "accessor not found"
+			out = append(out, r)
+			continue
+		}
+		var problems []string
+		var def *ssa.Defer
+		for _, in := range fn.Blocks[0].Instrs {
+			if d, ok := in.(*ssa.Defer); ok {
+				def = d
+				break
+			}
+			if _, ok := in.(ssa.CallInstruction); ok {
+				problems = append(problems, "a call precedes the deferred recover in the entry block")
+				break
+			}
+		}
+		if def == nil {
+			problems = append(problems, "no defer at the start of the accessor")
+		} else {
+			callee := def.Call.StaticCallee()
+			if callee == nil || !inModuleFn(callee) {
+				problems = append(problems, "the deferred call is not a function of the module")
+			} else {
+				recovers, storesErr := false, false
+				for _, b := range callee.Blocks {
+					for _, in := range b.Instrs {
+						if c, ok := in.(*ssa.Call); ok {
+							if bi, ok := c.Call.Value.(*ssa.Builtin); ok && bi.Name() == "recover" {
+								recovers = true
+							}
+						}
+						if st, ok := in.(*ssa.Store); ok {
+							if pt, ok := st.Addr.Type().Underlying().(*types.Pointer); ok && typeKey(pt.Elem()) == "error" {
+								switch st.Addr.(type) {
+								case *ssa.Parameter, *ssa.FreeVar:
+									storesErr = true
+								}
+							}
+						}
+					}
+				}
+				if !recovers {
+					problems = append(problems, "the deferred function does not call recover()")
+				}
+				if !storesErr {
+					problems = append(problems, "the deferred function does not store an error through a *error it was given")
+				}
+				// the accessor hands over the address of its error result
+				passesErr := false
+				for _, a := range def.Call.Args {
+					if al, ok := a.(*ssa.Alloc); ok && typeKey(al.Type().Underlying().(*types.Pointer).Elem()) == "error" && al.Comment == "err" {
+						passesErr = true
+					}
+				}
+				if !passesErr && len(callee.FreeVars) == 0 {
+					problems = append(problems, "the accessor does not pass the address of its named error result")
+				}
+			}
+		}
+		r.OK = len(problems) == 0
+		r.Detail = strings.Join(problems, "\n")
+		out = append(out, r)
+	}
+	sort.Slice(out, func(i, j int) bool { return out[i].Name < out[j].Name })
+	return out
+}
